@@ -247,8 +247,9 @@ func (x *c13Net) deployNNS() {
 	ctx, cancel := context.WithTimeout(context.Background(), 20*time.Second)
 	defer cancel()
 	done := make(chan error, 1)
+	cl := x.client(0)
 	go func() {
-		h, err := deploy.VerifInitNNSContract(ctx, x.logger(0), x.client(0), x.accs[0], fs[0].NEF, fs[0].Manifest, "nonexistent@nspcc.io", true)
+		h, err := deploy.VerifInitNNSContract(ctx, x.logger(0), cl, x.accs[0], fs[0].NEF, fs[0].Manifest, "nonexistent@nspcc.io", true)
 		x.nns = h
 		done <- err
 	}()
@@ -403,9 +404,10 @@ func c13RunConcurrent(t testing.TB, n int, live []int, budget int, salt int64) *
 	var wg sync.WaitGroup
 	for _, m := range live {
 		wg.Add(1)
+		prm := x.prm(m)
 		go func(m int) {
 			defer wg.Done()
-			err := deploy.VerifEnableNotary(ctx, x.prm(m))
+			err := deploy.VerifEnableNotary(ctx, prm)
 			if err == nil {
 				mu.Lock()
 				run.Returned = append(run.Returned, m)
@@ -538,23 +540,21 @@ func c13SourceFacts(t testing.TB) (coq string, human map[string]any) {
 			signerOwn = contains(fd, "domain := designateNotarySignatureDomainForMember(prm.localAccCommitteeIndex)")
 		}
 	}
-	require.True(t, first >= 0 && countOff >= 0 && sorted >= 0, "leader collection loop / assembly loop of deploy/notary.go not recognised: %v", human)
+	if first < 0 || countOff < 0 || sorted < 0 {
+		// not one of the loop shapes the model has a variant for: the source facts disagree with every variant
+		human["recognised"] = false
+		if first < 0 {
+			first = 99
+		}
+		if countOff < 0 {
+			countOff = 99
+		}
+	}
 	human["first_index"], human["indices_visited"], human["assembly_sorted"] = first, fmt.Sprintf("n-%d", countOff), sorted == 1
 	human["verifies_domain_i_with_committee_i"], human["map_key_is_i"], human["signer_writes_own_index"] = verifyOwn, keyOwn, signerOwn
 	coq = fmt.Sprintf("check_src %s (mkVariant %d %s) %d %s %s %s", c13Variant(), first, BoolLit(sorted == 1), countOff,
 		BoolLit(verifyOwn), BoolLit(keyOwn), BoolLit(signerOwn))
 	return coq, human
-}
-
-// c13Readable counts the live members 1..n-2 (the only ones the leader's loop counted before fix 70faaf5).
-func c13Readable(n int, live []int) int {
-	c := 0
-	for _, m := range live {
-		if m >= 1 && m <= n-2 {
-			c++
-		}
-	}
-	return c
 }
 
 func c13HasLeader(live []int) bool {
@@ -567,18 +567,30 @@ func c13HasLeader(live []int) bool {
 }
 
 // c13Judge is the Go monitor of the bootstrap property on one observed run:
-// safety of every designation handed to the node, and completion of a fair
-// run with a live majority that includes the leader.
-func c13Judge(c *c13, name string, n int, live []int, fair bool, designated bool, attempts []c13Attempt, replay any) string {
+// every designation the leader handed to the node must be accepted (right
+// number of signatures, each valid for this transaction, in key order), and a
+// fair run with a live majority that includes the leader must designate the
+// Notary role within its budget. Every violation carries the schedule.
+func c13Judge(c *c13, name string, n int, live []int, fair bool, designated bool, attempts []c13Attempt, issues []string, replay any) string {
 	m := smartcontract.GetMajorityHonestNodeCount(n)
+	reported := map[string]bool{}
+	report := func(what string) {
+		if !reported[what] {
+			reported[what] = true
+			c.st.AddViolation(what+" — "+name, replay)
+		}
+	}
+	for _, is := range issues {
+		report(is)
+	}
 	for _, a := range attempts {
 		seen := map[int]bool{}
 		bad := ""
-		if n > 1 && len(a.By) != m && !strings.Contains(a.Verdict, "-500") {
-			bad = "wrong number of signatures"
+		if n > 1 && len(a.By) != m {
+			bad = fmt.Sprintf("%d signatures for a %d-of-%d committee", len(a.By), m, n)
 		}
 		for _, b := range a.By {
-			if b >= n {
+			if b >= n || b < 0 {
 				bad = "a signature that verifies under no committee key"
 			}
 			if seen[b] {
@@ -586,23 +598,24 @@ func c13Judge(c *c13, name string, n int, live []int, fair bool, designated bool
 			}
 			seen[b] = true
 		}
-		if n > 1 && !a.AllOwn && len(a.By) == m {
+		if n > 1 && !a.AllOwn && bad == "" {
 			bad = "a signature made for another transaction"
 		}
-		if bad != "" {
-			c.st.AddViolation("notary bootstrap assembled a witness with "+bad, replay)
+		if bad == "" && !sort.IntsAreSorted(a.By) {
+			bad = "valid signatures out of key order"
 		}
-		if a.Verdict == "accepted" && !sort.IntsAreSorted(a.By) {
-			c.st.AddViolation("node accepted a witness out of key order", replay)
-		}
-		if bad == "" && a.AllOwn && len(a.By) == m && !sort.IntsAreSorted(a.By) {
-			// signature of the defect repaired by d247004: valid signatures of distinct members, right count, not in key order
-			c.st.AddViolation("notary bootstrap assembled valid signatures out of key order (fixed by d247004): "+name, replay)
-			c.st.OutcomeHistogram["bootstrap-attempt:out-of-key-order"]++
-		} else if a.Verdict == "accepted" {
+		benign := strings.Contains(a.Verdict, "already") || strings.Contains(a.Verdict, "-503") || strings.Contains(a.Verdict, "-501")
+		switch {
+		case bad != "":
+			c.st.OutcomeHistogram["bootstrap-attempt:malformed-witness"]++
+			report("notary bootstrap: the leader assembled a witness with " + bad + " (node: " + a.Verdict + ")")
+		case a.Verdict == "accepted":
 			c.st.OutcomeHistogram["bootstrap-attempt:accepted"]++
-		} else {
-			c.st.OutcomeHistogram["bootstrap-attempt:other"]++
+		case benign:
+			c.st.OutcomeHistogram["bootstrap-attempt:resent"]++
+		default:
+			c.st.OutcomeHistogram["bootstrap-attempt:refused"]++
+			report("notary bootstrap: the node refused the witness assembled by the leader: " + a.Verdict)
 		}
 	}
 	switch {
@@ -610,18 +623,9 @@ func c13Judge(c *c13, name string, n int, live []int, fair bool, designated bool
 		return "designated"
 	case !fair || !c13HasLeader(live) || len(live) < m:
 		return "not-designated(no live majority with leader, or unfair schedule)"
-	case len(attempts) == 0 && c13Readable(n, live) < m-1:
-		// signature of the defect repaired by 70faaf5: the leader's loop read domains 0..n-2 while member k writes domain k
-		c.st.AddViolation("notary bootstrap stuck: live members outside 1..n-2 are not counted (leader loop indices, fixed by 70faaf5): "+name, replay)
-		return "stuck:indices"
-	case len(attempts) > 0:
-		last := attempts[len(attempts)-1]
-		if last.AllOwn && len(last.By) == m && !sort.IntsAreSorted(last.By) {
-			return "stuck:signature-order" // violation recorded above
-		}
 	}
-	c.st.AddViolation("fair run with a live majority including the leader did not designate the Notary role: "+name, replay)
-	return "stuck:unexplained"
+	report(fmt.Sprintf("notary bootstrap: a fair run with a live majority that includes the leader (n=%d, live=%v) did not designate the Notary role within its budget", n, live))
+	return "stuck"
 }
 
 func c13Bootstrap(c *c13) (string, string) {
@@ -675,8 +679,11 @@ func c13Bootstrap(c *c13) (string, string) {
 		fairRun(5, all(5), 10),
 		fairRun(5, []int{0, 3, 4}, 9),
 		fairRun(7, all(7), 10),
-		{"n=2 shared data expire and are re-published, signer re-signs", 2, all(2), true,
-			cat(rounds(all(2), 6), []c13Step{{Op: "blocks", Count: 121}}, rounds(all(2), 4))},
+		// the signers sign S1, the leader is away until S1 expire, re-publishes S2, the signers must replace their record
+		{"n=2 shared data expire before the leader collects: re-published, signer re-signs", 2, all(2), true,
+			cat([]c13Step{tick(0), blk(), tick(0), blk(), tick(1), blk(), tick(1), blk(), {Op: "blocks", Count: 121}}, rounds(all(2), 7))},
+		{"n=3 shared data expire before the leader collects: re-published, signers re-sign", 3, all(3), true,
+			cat([]c13Step{tick(0), blk(), tick(0), blk(), tick(1), tick(2), blk(), tick(1), tick(2), blk(), {Op: "blocks", Count: 121}}, rounds(all(3), 7))},
 		{"n=3 leader restarts after publishing, signer 1 restarts after registering", 3, all(3), false,
 			cat(rounds(all(3), 2), []c13Step{{Op: "restart", K: 0}}, rounds(all(3), 1), []c13Step{{Op: "restart", K: 1}}, rounds(all(3), 5))},
 		{"n=3 leader's addRecord and signer's register are kept out of two blocks", 3, []int{0, 1}, false,
@@ -721,24 +728,39 @@ func c13Bootstrap(c *c13) (string, string) {
 	}
 	var pcases []string
 	for i, sc := range scens {
-		q := newC13Seq(c.t, sc.n, int64(sc.n)*7+int64(i))
-		q.run(sc.steps, r)
-		replay := map[string]any{"mode": "real tick closures driven step by step", "n": sc.n, "steps": sc.steps, "designation_attempts": q.attempts}
-		out := c13Judge(c, sc.name, sc.n, sc.live, sc.fair, q.designated(), q.attempts, replay)
-		c.st.OutcomeHistogram["bootstrap:"+out]++
-		c.st.OpHistogram["bootstrap-tick"] += q.ticks
-		c.st.Evaluations += q.ticks
-		if q.nextID > 0 {
-			c.nontr++
+		var q *c13Seq
+		replay := func() any {
+			rp := map[string]any{"mode": "real tick closures driven step by step", "scenario": sc.name, "n": sc.n, "steps": sc.steps}
+			if q != nil {
+				rp["designation_attempts"], rp["labels_with_observations"], rp["sent"] = q.attempts, q.steps, q.sentLog
+			}
+			return rp
+		}
+		c13Guard(c, sc.name, replay, func() {
+			q = newC13Seq(c.t, sc.n, int64(sc.n)*7+int64(i))
+			defer q.x.close()
+			q.run(sc.steps, r)
+			if sc.fair && !q.designated() {
+				q.finalIssues(sc.live)
+			}
+			out := c13Judge(c, sc.name, sc.n, sc.live, sc.fair, q.designated(), q.attempts, q.issues, replay())
+			c.st.OutcomeHistogram["bootstrap:"+out]++
+			if q.nextID > 0 {
+				c.nontr++
+			}
+			if os.Getenv("VERIF_C13_LOG") != "" {
+				fmt.Printf("SEQ %-70s %s attempts=%+v issues=%v\n", sc.name, out, q.attempts, q.issues)
+			}
+			if i == 1 { // n=2, both live, as labels of the model
+				c.st.Samples = append(c.st.Samples, map[string]any{"run": sc.name, "outcome": out, "designation_attempts": q.attempts, "labels": q.steps})
+			}
+			pcases = append(pcases, "(* "+sc.name+": "+out+" *) "+q.coq())
+		})
+		if q != nil {
+			c.st.OpHistogram["bootstrap-tick"] += q.ticks
+			c.st.Evaluations += q.ticks
 		}
 		c.st.Histories++
-		if os.Getenv("VERIF_C13_LOG") != "" {
-			fmt.Printf("SEQ %-70s %s attempts=%+v\n", sc.name, out, q.attempts)
-		}
-		if i == 1 { // n=2, both live, as labels of the model
-			c.st.Samples = append(c.st.Samples, map[string]any{"run": sc.name, "outcome": out, "designation_attempts": q.attempts, "labels": q.steps})
-		}
-		pcases = append(pcases, "(* "+sc.name+": "+out+" *) "+q.coq())
 	}
 	// The real enableNotary loops, one goroutine per live member, harness-produced blocks.
 	conc := []struct {
@@ -754,29 +776,32 @@ func c13Bootstrap(c *c13) (string, string) {
 		}
 	}
 	for i, sc := range conc {
-		run := c13RunConcurrent(c.t, sc.n, sc.live, 40, int64(900+i))
-		var atts []c13Attempt
-		for _, d := range run.Designate {
-			a := c13Attempt{By: d.Order, AllOwn: true, Verdict: "accepted"}
-			if !d.Accepted {
-				a.Verdict = d.Err
-			}
-			for _, b := range d.Order {
-				if b < 0 {
-					a.AllOwn = false
+		c13Guard(c, fmt.Sprintf("enableNotary n=%d live=%v", sc.n, sc.live), func() any { return map[string]any{"n": sc.n, "live": sc.live} }, func() {
+			run := c13RunConcurrent(c.t, sc.n, sc.live, 40, int64(900+i))
+			var atts []c13Attempt
+			for _, d := range run.Designate {
+				a := c13Attempt{By: d.Order, AllOwn: true, Verdict: "accepted"}
+				if !d.Accepted {
+					a.Verdict = d.Err
 				}
+				for _, b := range d.Order {
+					if b < 0 {
+						a.AllOwn = false
+					}
+				}
+				atts = append(atts, a)
 			}
-			atts = append(atts, a)
-		}
-		out := c13Judge(c, run.Mode, sc.n, sc.live, true, run.Done, atts, run)
-		c.st.OutcomeHistogram["enableNotary:"+out]++
+			out := c13Judge(c, run.Mode, sc.n, sc.live, true, run.Done, atts, nil, run)
+			c.st.OutcomeHistogram["enableNotary:"+out]++
+			c.nontr++
+			c.st.Extra[fmt.Sprintf("enableNotary n=%d live=%v", sc.n, sc.live)] = map[string]any{
+				"blocks": run.Blocks, "budget": run.Budget, "designated": run.Done, "returned": run.Returned, "sent": run.Sent}
+		})
 		c.st.Histories++
-		c.nontr++
-		c.st.Extra[fmt.Sprintf("enableNotary n=%d live=%v", sc.n, sc.live)] = map[string]any{
-			"blocks": run.Blocks, "budget": run.Budget, "designated": run.Done, "returned": run.Returned, "sent": run.Sent}
 	}
 	defs := "Definition pcases : list pcase := [\n" + strings.Join(pcases, ";\n") + "\n].\n"
-	srcCheck, srcFacts := c13SourceFacts(c.t)
+	srcCheck, srcFacts := "check_src "+c13Variant()+" (mkVariant 99 false) 99 false false false", map[string]any{}
+	c13Guard(c, "go/ast walk over deploy/notary.go", func() any { return nil }, func() { srcCheck, srcFacts = c13SourceFacts(c.t) })
 	c.st.Extra["deploy/notary.go index expressions (go/ast)"] = srcFacts
 	c.st.Evaluations++
 	defs += "(* index expressions of deploy/notary.go found by go/ast, against the model's variant *)\n" +
